@@ -38,6 +38,7 @@
   NOT proved (validated by the correspondence only, or outside the model): see the list at the end of this file.
 -/
 import PercevalModel.Lemmas.C04
+import PercevalModel.Lemmas.C04Decl
 import PercevalModel.Lemmas.C04Mass
 import PercevalModel.Lemmas.C04Det
 import PercevalModel.Lemmas.C04Evolve
@@ -2439,6 +2440,207 @@ example : (probsSvdGenSDet PM.C02.exU uCfg [.thr, .none] [⟨1, sTerms⟩]).phys
     (by intro g hg; simp only [List.mem_singleton] at hg; subst hg; decide)
   ⟨h.1, h.2.1⟩
 
+/-! ### EXTENSION 4 — where the heralds come from (`Experiment.add_herald` / `add_port` / `heralds` / `m` /
+`circuit_size` / `with_input`), and `evolve_svd` against `probs_svd`
+
+`Model/C04Decl.lean` is the port bookkeeping of `Experiment` as coded, every exception caught (`declRun`). -/
+
+/-- **declared_heralds_invariant.**  After ANY history of `add_herald` / `add_port` calls on `Experiment(m)` —
+refused calls included, also the call that raises `IndexError` after having stored its port — the declared herald
+modes are pairwise distinct, `circuit_size` is still `m`, and the input length `check_input` asks for (`self.m`) is
+exactly the number of blanks of the herald mask, i.e. the hypothesis `hu` of `interleave_spec`. -/
+theorem declared_heralds_invariant (m : ℕ) (ops : List DeclOp) :
+    ((declRun (Exp.init m) ops).1.heralds.map (·.1)).Nodup ∧
+    (declRun (Exp.init m) ops).1.circuitSize = m ∧
+    (declRun (Exp.init m) ops).1.nMoi = freeModes (heraldMask m (declRun (Exp.init m) ops).1.heralds) := by
+  have I := declRun_inv ops _ (declInv_init m)
+  have hs : (declRun (Exp.init m) ops).1.size = m := declRun_size ops _
+  refine ⟨I.nodup, ?_, ?_⟩
+  · rw [Exp.circuitSize, I.size, hs]
+  · have := I.free
+    rwa [hs] at this
+
+/-- **declared_heralds_wf.**  The hypothesis `HeraldsWF` of every theorem above holds for the `heralds` dictionary of
+an experiment none of whose declaration calls ended in `IndexError` (calls refused with `AssertionError` /
+`UnavailableModeException` may have been caught; other ports may have been added in between). -/
+theorem declared_heralds_wf (m : ℕ) (ops : List DeclOp)
+    (h : DeclRes.indexError ∉ (declRun (Exp.init m) ops).2) :
+    HeraldsWF m (declRun (Exp.init m) ops).1.heralds :=
+  ⟨(declared_heralds_invariant m ops).1,
+   declRun_inRange ops (Exp.init m) (by simp [Exp.init, Exp.heralds]) h⟩
+
+/-- …and the `IndexError` is the only way out: the call stores its port before `_mode_type[mode]` raises -/
+theorem declared_heralds_wf_needs_no_index_error :
+    ¬ ∀ (m : ℕ) (ops : List DeclOp), HeraldsWF m (declRun (Exp.init m) ops).1.heralds := by
+  intro h
+  have := (h 3 [.herald 5 1]).inRange (5, 1) (by decide)
+  omega
+
+/-- every declared expected value is 0 or 1 (`assert expected == 0 or expected == 1`): the property's quantifier -/
+theorem declared_values_le_one (m : ℕ) (ops : List DeclOp) :
+    ∀ p ∈ (declRun (Exp.init m) ops).1.heralds, p.2 ≤ 1 := by
+  suffices H : ∀ (ops : List DeclOp) (e : Exp), (∀ p ∈ e.heralds, p.2 ≤ 1) →
+      ∀ p ∈ (declRun e ops).1.heralds, p.2 ≤ 1 from H ops _ (by simp [Exp.init, Exp.heralds])
+  intro ops
+  induction ops with
+  | nil => intro e he; exact he
+  | cons op rest ih =>
+    intro e he
+    simp only [declRun]
+    apply ih
+    cases op with
+    | herald k v =>
+      simp only [declStep]
+      split_ifs with h1 h2 h3
+      · exact he
+      · exact he
+      · intro p hp
+        rw [heralds_append_herald] at hp
+        rcases List.mem_append.1 hp with hp | hp
+        · exact he p hp
+        · simp only [List.mem_singleton] at hp; subst hp; show v ≤ 1; omega
+      · intro p hp
+        have hH := heralds_append_herald e k v
+        simp only [Exp.heralds] at hH hp ⊢
+        rw [hH] at hp
+        rcases List.mem_append.1 hp with hp | hp
+        · exact he p hp
+        · simp only [List.mem_singleton] at hp; subst hp; show v ≤ 1; omega
+    | port k w =>
+      simp only [declStep]
+      split_ifs with h1
+      · exact he
+      · intro p hp
+        have hH : Exp.heralds { e with ports := e.ports ++ [(none, List.range' k w)] } = e.heralds :=
+          heralds_append_port e _
+        rw [hH] at hp
+        exact he p hp
+
+/-- **declared_with_input_spec.**  `with_input(BasicState)` on an experiment declared by any such history accepts
+exactly the inputs whose length is the number of modes that carry no herald, and the state it stores has the
+circuit's size, holds the expected values on the heralded modes and the user's state on the others. -/
+theorem declared_with_input_spec (m : ℕ) (ops : List DeclOp) (user : Fock)
+    (h : DeclRes.indexError ∉ (declRun (Exp.init m) ops).2) :
+    ((declRun (Exp.init m) ops).1.withInput user ≠ none ↔
+      user.length = freeModes (heraldMask m (declRun (Exp.init m) ops).1.heralds)) ∧
+    ∀ fullIn, (declRun (Exp.init m) ops).1.withInput user = some fullIn →
+      fullIn.length = m ∧ heraldsOk (declRun (Exp.init m) ops).1.heralds fullIn = true ∧
+      removeModes ((declRun (Exp.init m) ops).1.heralds.map (·.1)) fullIn = user := by
+  obtain ⟨_, hcs, hfree⟩ := declared_heralds_invariant m ops
+  have wf := declared_heralds_wf m ops h
+  constructor
+  · unfold Exp.withInput
+    rw [hfree]
+    split_ifs with hl
+    · simp [hl]
+    · simp only [ne_eq, not_not] at hl; simp [hl]
+  · intro fullIn hw
+    unfold Exp.withInput at hw
+    split_ifs at hw with hl
+    simp only [ne_eq, not_not] at hl
+    cases hw
+    rw [hcs]
+    exact interleave_spec m _ user wf (by rw [hl, hfree])
+
+example : (declRun (Exp.init 4) [.herald 2 1, .herald 2 0, .port 0 2, .herald 1 0, .herald 3 2, .herald 3 0]).2 =
+    [.ok, .unavailable, .ok, .unavailable, .assertionError, .ok] ∧
+    (declRun (Exp.init 4) [.herald 2 1, .herald 2 0, .port 0 2, .herald 1 0, .herald 3 2, .herald 3 0]).1.heralds =
+      [(2, 1), (3, 0)] ∧
+    (declRun (Exp.init 4) [.herald 2 1, .herald 2 0, .port 0 2, .herald 1 0, .herald 3 2, .herald 3 0]).1.withInput
+      [1, 0] = some [1, 0, 1, 0] := by decide
+
+/-- the quirk of the `IndexError` path, as coded: the port stays in the dictionaries, the counters do not move -/
+example : (declRun (Exp.init 3) [.herald 1 1, .herald 5 1]).2 = [.ok, .indexError] ∧
+    (declRun (Exp.init 3) [.herald 1 1, .herald 5 1]).1.heralds = [(1, 1), (5, 1)] ∧
+    (declRun (Exp.init 3) [.herald 1 1, .herald 5 1]).1.circuitSize = 3 ∧
+    (declRun (Exp.init 3) [.herald 1 1, .herald 5 1]).1.withInput [1, 0] = some [1, 1, 0] := by decide
+
+/-- **condition_spec_declared.**  End to end from the declaration: a processor on a UNITARY `m`-mode circuit whose
+heralds were declared by ANY history of `add_herald` / `add_port` calls none of which ended in `IndexError`, given an
+input `with_input` accepts (perfect source: the one Fock state `with_input` stored), returns the conditioning of the
+unconditioned output distribution of that stored state — no well-formedness hypothesis on the heralds, no hypothesis
+on the engine, none on the input's length is left. -/
+theorem condition_spec_declared {m : ℕ} (U : Matrix (Fin m) (Fin m) GQ) (hU : IsUnitary U) (ops : List DeclOp)
+    (hok : DeclRes.indexError ∉ (declRun (Exp.init m) ops).2) (user fullIn : Fock)
+    (hin : (declRun (Exp.init m) ops).1.withInput user = some fullIn)
+    (ps : PS) (k : ℕ) (keep pnr : Bool)
+    (hret : mass (retained (cond ⟨m, (declRun (Exp.init m) ops).1.heralds, ps, k, keep, pnr⟩)
+      (mix [((1 : ℚ), probsTagged U [fullIn])])) ≠ 0) :
+    (probsSvd (probsFock U) ⟨m, (declRun (Exp.init m) ops).1.heralds, ps, k, keep, pnr⟩ [⟨1, [fullIn]⟩]).results =
+      conditioned (cond ⟨m, (declRun (Exp.init m) ops).1.heralds, ps, k, keep, pnr⟩)
+        (mix [((1 : ℚ), probsTagged U [fullIn])]) ∧
+    heraldsOk (declRun (Exp.init m) ops).1.heralds fullIn = true ∧
+    removeModes ((declRun (Exp.init m) ops).1.heralds.map (·.1)) fullIn = user := by
+  obtain ⟨hlen, hh, hr⟩ := (declared_with_input_spec m ops user hok).2 fullIn hin
+  refine ⟨?_, hh, hr⟩
+  exact condition_spec_unitary ⟨m, (declRun (Exp.init m) ops).1.heralds, ps, k, keep, pnr⟩ rfl U hU [⟨1, [fullIn]⟩]
+    (declared_heralds_wf m ops hok)
+    (by intro mb hmb s hs
+        simp only [List.mem_singleton] at hmb; subst hmb
+        simp only [List.mem_singleton] at hs; subst hs; exact hlen)
+    ⟨by simp, by intro mb hmb; simp only [List.mem_singleton] at hmb; subst hmb; norm_num⟩
+    (by simpa using hret)
+
+/-- **evolve_svd_agrees_with_probs_svd.**  On a mixture of annotated Fock states `evolve_svd` and `probs_svd` report
+the same two performances (the first sums the weights of the inputs that pass the filter and averages the
+per-input logical performances; the second subtracts the rejected weights from 1 and divides accumulated masses). -/
+theorem evolve_svd_agrees_with_probs_svd (eng : Fock → D) (c : Cfg) (members : List Member)
+    (wf : HeraldsWF c.m c.heralds) (he : EngOK eng c.m members) (hmix : MixOK members)
+    (hg : ∀ mb ∈ members, mb.groups ≠ [])
+    (hvac : ∀ mb ∈ members, ∀ s ∈ mb.groups, s.sum = 0 → eng s = [(s, 1)]) :
+    (evolveSvd eng c members).1 = (probsSvd eng c members).phys ∧
+    (evolveSvd eng c members).2 = (probsSvd eng c members).logical := by
+  obtain ⟨h1, h2⟩ := evolve_svd_perf_spec eng c members wf he hg hvac
+  exact ⟨by rw [h1, physical_perf_spec eng c members he hmix],
+         by rw [h2, logical_perf_spec eng c members wf he hmix]⟩
+
+/-- **evolve_svd_perf_product.**  `physical_perf * logical_perf` of `evolve_svd` = total retained probability. -/
+theorem evolve_svd_perf_product (eng : Fock → D) (c : Cfg) (members : List Member)
+    (wf : HeraldsWF c.m c.heralds) (he : EngOK eng c.m members)
+    (hg : ∀ mb ∈ members, mb.groups ≠ [])
+    (hvac : ∀ mb ∈ members, ∀ s ∈ mb.groups, s.sum = 0 → eng s = [(s, 1)])
+    (hphys : (evolveSvd eng c members).1 ≠ 0) :
+    (evolveSvd eng c members).1 * (evolveSvd eng c members).2 =
+      mass (retained (cond c) (full eng c.m members)) := by
+  obtain ⟨h1, h2⟩ := evolve_svd_perf_spec eng c members wf he hg hvac
+  rw [h1] at hphys
+  rw [h1, h2]
+  exact SimSpec.perf_product _ _ hphys
+
+/-- **evolve_svd_weights_spec.**  The weights of the `SVDistribution` returned by `evolve_svd` (`p · logical_perf` of
+each accepted input, normalised): the normalising constant is the total retained probability of the specification,
+and the weights sum to 1 whenever something is retained and the reported states have at least one mode (when every
+mode is heralded and the heralds are discarded the code stores nothing: `new_sv.m != 0` fails — characterised by
+`evolve_svd_weights_all_heralded`, not repaired; `evolve_svd`'s returned distribution is not among the property's
+observation points). -/
+theorem evolve_svd_weights_spec (eng : Fock → D) (c : Cfg) (members : List Member)
+    (wf : HeraldsWF c.m c.heralds) (he : EngOK eng c.m members)
+    (hg : ∀ mb ∈ members, mb.groups ≠ [])
+    (hvac : ∀ mb ∈ members, ∀ s ∈ mb.groups, s.sum = 0 → eng s = [(s, 1)])
+    (hphys : (evolveSvd eng c members).1 ≠ 0) :
+    ((kept c members).map fun mb => mb.w * evolveLogical eng c mb.groups).sum =
+      mass (retained (cond c) (full eng c.m members)) ∧
+    (mass (retained (cond c) (full eng c.m members)) ≠ 0 → outModes c ≠ 0 →
+      (evolveSvdWeights eng c members).sum = 1) := by
+  have hp := evolve_svd_perf_product eng c members wf he hg hvac hphys
+  have hglob : ((kept c members).map fun mb => mb.w * evolveLogical eng c mb.groups).sum =
+      mass (retained (cond c) (full eng c.m members)) := by
+    rw [← hp]
+    simp only [evolveSvd] at hphys ⊢
+    rw [if_pos hphys]
+    field_simp
+  refine ⟨hglob, fun hne hm => ?_⟩
+  unfold evolveSvdWeights
+  simp only
+  rw [if_neg hm, sum_map_div, sum_filter_ne_zero, hglob]
+  exact div_self hne
+
+/-- every mode heralded, heralds discarded: `evolve_svd` returns an empty distribution whatever was retained -/
+theorem evolve_svd_weights_all_heralded (eng : Fock → D) (c : Cfg) (members : List Member)
+    (hk : c.keepHeralds = false) (hall : c.heralds.length = c.m) : evolveSvdWeights eng c members = [] := by
+  unfold evolveSvdWeights
+  simp [outModes, hk, hall]
+
 /-! ### what is still NOT a theorem
 
 * probability trimming is now modelled on every path of `probs_svd`: fast path (`probsSvdθ`), layouts with a non-PNR
@@ -2467,8 +2669,15 @@ example : (probsSvdGenSDet PM.C02.exU uCfg [.thr, .none] [⟨1, sTerms⟩]).phys
   (`post_select_statevector` adds amplitudes of components that differ only by the tags of the discarded photons):
   only its logical performance is modelled and proved (`evolve_logical_perf_spec`), and `evolve_mask_invariance`
   for the accepted squared amplitudes before the heralded modes are removed;
-* `evolveSvd`, `declareHeralds` are models written from the source that the correspondence does not exercise by
-  themselves (`evolve_svd`'s two performances agree with `probs_svd`'s on the same input, checked by hand);
+* `evolveSvd` and the declaration machine `declRun` (`Experiment.add_herald` / `add_port` / `heralds` / `m` /
+  `circuit_size` / `with_input`, every exception caught — it supersedes `declareHeralds`) are NOW exercised by the
+  correspondence (batches `evsvd` and `decl`) and carry theorems (`declared_heralds_invariant`, `declared_heralds_wf`,
+  `declared_with_input_spec`, `condition_spec_declared`, `evolve_svd_agrees_with_probs_svd`, `evolve_svd_perf_product`,
+  `evolve_svd_weights_spec`).  Still outside: `remove_port` (it deletes a Herald port without restoring `_n_moi` /
+  `_n_heralds` — removing a herald is not in the property's quantifier), ports at `PortLocation.INPUT` / `OUTPUT` only,
+  negative modes (Python indexes `_mode_type` from the end), `add_herald` after components made the circuit grow;
+  the state vectors of `evolve_svd`'s result (only their weights are modelled, under the assumption that distinct
+  members evolve to distinct vectors), `evolve_svd` on superposed members (`min(sv.n)` rule);
 * that the closed-form kernel tables handed to `Det.table` are `Detector.detect`'s (C08's subject) — here a
   hypothesis `KernsOK` on the tables; for `Detector.pnr/threshold` it is proved (`kernsOK_builtin`);
 * the degenerate logical performance of the detector path (`logical_perf_nonpnr_detectors_full`: the code reports
